@@ -89,6 +89,9 @@ def replay_update(old, shape, model):
         if old == 'timed':
             m.update(line('10.0.0.1', max(e0, now + 1)))
         elif old == 'never':
+            if model.get('had_a_timed_expiry_before'):
+                # the entry was a timed mapping first: its cancelled DelayedCall stays in Addr.expiry
+                m.update(line('10.0.0.1', now + 3600))
             m.update(line('10.0.0.1', 'NEVER'))
         clock.advance(now - start)
         problems = []
